@@ -78,6 +78,14 @@ Definition f_ran (f : flight) (p outcome v : Z) : flight :=
   | _ => f
   end.
 
+(* Group.Forget(k) called by the leader from inside its function (LoadingStore.Get and GetWithSecodary defer it
+   so that it runs just before the shard lock is released): later callers do not find the call any more *)
+Definition f_forget (f : flight) (p : Z) : flight :=
+  match fget f p with
+  | FLead c k => with_table f (filter (fun x => negb (fst x =? k)) (ftable f))
+  | _ => f
+  end.
+
 (* leader cleanup: wg.Done, table entry removed if still ours, then release *)
 Definition f_finish (f : flight) (p : Z) : flight * list Z :=
   match fget f p with
@@ -111,7 +119,7 @@ Definition newFlight : flight := mkF [] [] [] [] 1 [].
 (* integer-list interface:
    [0;p;k;reuse] enter -> [1] leads / [0] joins / [-3] re-issued a record still in use      [1;p;outcome;v] leader's function ends -> []
    [2;p] leader cleanup + return -> [code; v]          [3;p] joiner returns -> [code; v]
-   [4;k] is a call registered for k -> [0/1] *)
+   [4;k] is a call registered for k -> [0/1]          [5;p] leader p calls Forget(its key) from inside its function -> [] *)
 Definition fl_step (f : flight) (op : list Z) : flight * list Z :=
   match op with
   | [0; p; k; c] => f_enter f p k c
@@ -119,6 +127,7 @@ Definition fl_step (f : flight) (op : list Z) : flight * list Z :=
   | [2; p] => f_finish f p
   | [3; p] => f_wake f p
   | [4; k] => (f, [match tab_get f k with Some _ => 1 | None => 0 end])
+  | [5; p] => (f_forget f p, [])
   | _ => (f, [-9])
   end.
 Definition fl_init (cfg : list Z) : flight := newFlight.
